@@ -122,6 +122,8 @@ SIG = {
                              [('CODEOPS', 'List (Bytes × String)'), ('rawtxhex', 'Bytes')], 'Py.PyTx'),
     # block headers
     'blockheader_from_raw': ('block.py', 'BlockHeader.from_raw', [('rawhexdata', 'Bytes')], 'Py.PyHeader'),
+    # the whole block: framing, the transaction count, the per-transaction slicing by get_transaction_length, the handler that ends the loop
+    'block_from_raw': ('block.py', 'Block.from_raw', [('CODEOPS', 'List (Bytes × String)'), ('rawhexdata', 'Bytes')], 'Py.PyBlock'),
     'blockheader_serialize': ('block.py', 'BlockHeader.serialize_header', [('self_version', 'Int'), ('self_previous_block_hash', 'Bytes'), ('self_merkle_root', 'Bytes'), ('self_timestamp', 'Int'), ('self_target_bits', 'Int'), ('self_nonce', 'Int')], 'Bytes'),
     'blockheader_hash': ('block.py', 'BlockHeader.get_block_hash', [('hashlib_sha256', 'Bytes → Bytes')] + [('self_version', 'Int'), ('self_previous_block_hash', 'Bytes'), ('self_merkle_root', 'Bytes'), ('self_timestamp', 'Int'), ('self_target_bits', 'Int'), ('self_nonce', 'Int')], 'Bytes'),
     'blockheader_target': ('block.py', 'BlockHeader.get_target_bits', [('self_target_bits', 'Int')], 'Bytes'),
@@ -253,7 +255,8 @@ TWEAKFUNS = {'negate_privkey': set(), 'tweak_taproot_pubkey': {'P', 'Q'}, 'tweak
 TWEAK_CALLS = {'point_add': 'schnorr_point_add', 'point_mul': 'schnorr_point_mul', 'full_pubkey_gen': 'schnorr_full_pubkey_gen',
                'negate_privkey': 'negate_privkey'}
 # parsers: `x.hex()` of bytes is the same data (hex strings are modelled as the bytes they denote), struct.unpack_from
-PARSERS = {'txoutput_from_raw', 'txinput_from_raw', 'transaction_from_raw', 'blockheader_from_raw', 'blockheader_serialize', 'blockheader_hash'}
+PARSERS = {'txoutput_from_raw', 'txinput_from_raw', 'transaction_from_raw', 'blockheader_from_raw', 'blockheader_serialize', 'blockheader_hash',
+           'block_from_raw'}
 # struct format characters: size in bytes (little-endian / no alignment only), unsigned
 FMT_INT = {'B': 1, 'H': 2, 'I': 4, 'Q': 8}
 # functions allowed to mutate `tmp = Transaction.copy(self)`: the copy's record lists become mutable *values* (lists of records).
@@ -264,10 +267,12 @@ MUTCOPY = {'legacy_digest'}
 REC_CTOR = {'TxOutput': ('Py.PyTxOut', ['amount', 'script_pubkey']), 'TxInput': ('Py.PyTxIn', ['txid', 'txout_index', 'script_sig', 'sequence']),
             'TxWitnessInput': ('Py.PyWit', ['stack']),
             'BlockHeader': ('Py.PyHeader', ['version', 'previous_block_hash', 'merkle_root', 'timestamp', 'target_bits', 'nonce']),
-            'Transaction': ('Py.PyTx', ['inputs', 'outputs', 'locktime', 'version', 'has_segwit', 'witnesses'])}
+            'Transaction': ('Py.PyTx', ['inputs', 'outputs', 'locktime', 'version', 'has_segwit', 'witnesses']),
+            'Block': ('Py.PyBlock', ['magic', 'block_size', 'header', 'transaction_count', 'transactions'])}
 # element types of the lists a function builds with `x = []` ... `x.append(e)` (each append is checked against it)
 LOCAL_LISTS = {'transaction_from_raw': {'inputs': 'List Py.PyTxIn', 'outputs': 'List Py.PyTxOut', 'witnesses': 'List Py.PyWit',
-                                        'witnesses_tmp': 'List Bytes'}}
+                                        'witnesses_tmp': 'List Bytes'},
+               'block_from_raw': {'transactions': 'List Py.PyTx'}}
 # module-level names visible to the functions of one file only (filled from the evaluated module)
 FILE_CONSTS = {}
 # `while` loops are translated with an explicit iteration bound (a Lean term over the variables in scope at loop
@@ -284,9 +289,10 @@ STR_UTF8 = {'utils_tagged_hash', 'tapbranch_tagged_hash', 'tapleaf_tagged_hash',
 POINT_RET = {'point_add': 'schnorr_point_add', 'point_mul': 'schnorr_point_mul', 'lift_x': 'schnorr_lift_x'}
 CALLS = {'ripemd160': 'rmd_ripemd160', 'rol': 'rmd_rol', 'fi': 'rmd_fi', '_push_integer': 'push_integer', 'vi_to_int': 'vi_to_int',
          'encode_varint': 'encode_varint', 'prepend_compact_size': 'prepend_compact_size',
-         '_op_push_data': 'op_push_data', 'parse_compact_size': 'parse_compact_size',
+         '_op_push_data': 'op_push_data', 'parse_compact_size': 'parse_compact_size', 'get_transaction_length': 'get_transaction_length',
          'bech32_polymod': 'bech32_polymod', 'bech32_hrp_expand': 'bech32_hrp_expand'}
 IDENT = {'h_to_b', 'b_to_h'}  # hex strings that denote data are modelled as the bytes they denote
+MAY_UNSUPPORTED = set()          # generated functions that can answer `unsupported` (stubs, their callers, users of partial PyRT string functions)
 CONSTS = {}                   # filled from the evaluated constants module
 CONST_STRS = {}               # string constants (as Python strings)
 
@@ -716,7 +722,6 @@ class Tr:
         return None
 
     def e_wif(s, n):
-        import re as _re
         if (isinstance(n, ast.Subscript) and isinstance(n.value, ast.Name) and n.value.id in ('NETWORK_P2PKH_PREFIXES', 'NETWORK_P2SH_PREFIXES')
                 and isinstance(n.slice, ast.Call) and getattr(n.slice.func, 'id', '') == 'get_network' and not n.slice.args):
             return 'p2pkh_prefix' if 'P2PKH' in n.value.id else 'p2sh_prefix'
@@ -892,7 +897,6 @@ class Tr:
             if (isinstance(r, ast.BinOp) and isinstance(r.op, ast.Mult) and isinstance(r.left, ast.Constant) and isinstance(r.left.value, str)
                     and isinstance(r.right, ast.Constant) and isinstance(r.right.value, int) and not isinstance(r.right.value, bool)):
                 lit = r.left.value * r.right.value
-            import re as _re
             if lit is None or not _re.fullmatch(r'([0-9a-f]{2})*', lit): s.fail(n, 'comparison of hex() with a non-literal')
             op = '==' if isinstance(n.ops[0], ast.Eq) else '!='
             return f'({s.e(n.left.func.value)} {op} ({blit(bytes.fromhex(lit))} : Bytes))'
@@ -996,7 +1000,6 @@ class Tr:
 
     def fmt_items(s, n, fmt):
         """'<32sI' -> [('s', 32), ('I', 4)]; the format must be little-endian, or consist of `s` items only (no alignment either way)"""
-        import re as _re
         body = fmt[1:] if fmt[:1] == '<' else fmt
         items = _re.findall(r'(\d*)([a-zA-Z?])', body)
         if ''.join(c + k for c, k in items) != body: s.fail(n, f'struct format {fmt!r}')
@@ -1197,7 +1200,7 @@ class Tr:
             if f.id in REC_CTOR and s.name in PARSERS and not args and set(kw) == set(REC_CTOR[f.id][1]):
                 s.check_ctor(n, f.id)
                 return '(⟨' + ', '.join(s.e(kw[x]) for x in REC_CTOR[f.id][1]) + f'⟩ : {REC_CTOR[f.id][0]})'
-            if f.id in REC_CTOR and s.mutcopy is not None and not kw and len(args) == len(REC_CTOR[f.id][1]):
+            if f.id in REC_CTOR and (s.mutcopy is not None or s.name == 'block_from_raw') and not kw and len(args) == len(REC_CTOR[f.id][1]):
                 s.check_ctor(n, f.id)
                 return f'(⟨' + ', '.join(s.e(a) for a in args) + f'⟩ : {REC_CTOR[f.id][0]})'
             if f.id == 'len' and isinstance(args[0], ast.Name) and args[0].id in s.mutlists:
@@ -1235,6 +1238,14 @@ class Tr:
                     and not kw and 'CODEOPS' in s.revtables):
                 fn_ = 'txinput_from_raw' if f.value.id == 'TxInput' else 'txoutput_from_raw'
                 return s.eff(f'{fn_} CODEOPS {s.e(args[0])} {s.e(args[1])} {s.cond(args[2])}')
+            if (f.attr == 'from_raw' and isinstance(f.value, ast.Name) and f.value.id == 'BlockHeader' and len(args) == 1 and not kw
+                    and s.name == 'block_from_raw' and s.isbytes(args[0])):
+                return s.eff(f'blockheader_from_raw {s.e(args[0])}')
+            if (f.attr == 'from_raw' and isinstance(f.value, ast.Name) and f.value.id == 'Transaction' and len(args) == 1 and not kw
+                    and s.name == 'block_from_raw' and 'CODEOPS' in s.revtables and isinstance(args[0], ast.Call)
+                    and isinstance(args[0].func, ast.Attribute) and args[0].func.attr == 'hex' and not args[0].args
+                    and s.isbytes(args[0].func.value)):
+                return s.eff(f'transaction_from_raw CODEOPS {s.e(args[0].func.value)}')       # the hex string denotes the same bytes
             if f.attr == 'calcsize' and isinstance(f.value, ast.Name) and f.value.id == 'struct' and len(args) == 1:
                 fm = s.fmt_of(args[0])
                 if fm is None or fm[0] != 'const': s.fail(n, 'calcsize format')
@@ -1352,7 +1363,6 @@ class Tr:
         if s.name in ('is_address_valid', 'address_to_hash160') and isinstance(st, ast.Assign) and len(st.targets) == 1 \
                 and isinstance(st.targets[0], ast.Name):
             nm = st.targets[0].id
-            import re as _re
             if isinstance(st.value, ast.Constant) and isinstance(st.value.value, str):
                 m_ = _re.fullmatch(r'\[\^([0-9A-Za-z]+)\]', st.value.value)
                 if not m_: s.fail(st, 'regular expression other than a negated set of alphanumerics')
@@ -1465,6 +1475,9 @@ class Tr:
             elif isinstance(a, ast.Name) and a.id in s.recvars and s.recvars[a.id] == RECORDS[T_]: v = a.id
             elif (isinstance(a, ast.Call) and isinstance(a.func, ast.Name) and a.func.id in REC_CTOR
                   and 'List ' + REC_CTOR[a.func.id][0] == T_): v = s.e(a)
+            elif (isinstance(a, ast.Call) and isinstance(a.func, ast.Attribute) and a.func.attr == 'from_raw'
+                  and isinstance(a.func.value, ast.Name) and a.func.value.id in REC_CTOR
+                  and 'List ' + REC_CTOR[a.func.value.id][0] == T_): v = s.e(a)       # K.from_raw(…) returns a K
             else: s.fail(st, 'append to a typed local list')
             return s.flush(ind) + [f'{ind}{nm} := {nm} ++ [{v}]']
         if isinstance(st, ast.Assign) and len(st.targets) == 1 and s.mutlists:
@@ -1608,7 +1621,10 @@ class Tr:
                 used = any(isinstance(x, ast.Name) and x.id == v and isinstance(x.ctx, ast.Load) for b in st.body for x in ast.walk(b))
                 head = [f'{ind}for {v}_ in [0:(Int.toNat {hi})] do']
                 if used: head.append(f'{ind}  let {v} : Int := Int.ofNat {v}_')
-                return pre + head + s.block(st.body, ind + '  ')
+                s.loopdepth = getattr(s, 'loopdepth', 0) + 1
+                try: body_ = s.block(st.body, ind + '  ')
+                finally: s.loopdepth -= 1
+                return pre + head + body_
             it = s.iter(st.iter); pre = s.flush(ind)
             if it in s.reclists:
                 # a record loop variable is a binder of the loop only (the name may be re-used for an assignment later)
@@ -1633,6 +1649,32 @@ class Tr:
             out += s.flush(ind + '  ')
             out += [f'{ind}  if !{c} then break', f'{ind}  if fuel_ == {bound} then throw PyErr.fellThrough']
             out += s.block(st.body, ind + '  ')
+            return out
+        if isinstance(st, ast.Try):
+            # try: <simple statements> except Exception [as e]: print(..)…; break      — directly inside a `for`
+            # Every call that can raise inside the body is bound as a value first; on an exception the handler's `break` runs.  The
+            # statements before the raising one have taken effect, as in Python.  `unsupported` must never be swallowed: the callees have to be
+            # generated functions that (transitively) cannot answer it — checked here, statically.
+            if st.orelse or st.finalbody or len(st.handlers) != 1: s.fail(st, 'try statement shape')
+            h = st.handlers[0]
+            if not (isinstance(h.type, ast.Name) and h.type.id == 'Exception'): s.fail(st, 'except clause')
+            if not (h.body and isinstance(h.body[-1], ast.Break) and all(
+                    isinstance(x, ast.Expr) and isinstance(x.value, ast.Call) and getattr(x.value.func, 'id', '') == 'print' for x in h.body[:-1])):
+                s.fail(st, 'exception handler other than print…; break')
+            if getattr(s, 'loopdepth', 0) != 1 or ind != '    ': s.fail(st, 'try/except-break not directly inside one for loop')
+            out = s.flush(ind)
+            for b in st.body:
+                if not isinstance(b, (ast.Assign, ast.AugAssign, ast.Expr)): s.fail(b, 'compound statement inside try')
+                for ln in s.stmt(b, ind):
+                    m = _re.fullmatch(r'(\s*)let (t\d+) ← (.*)', ln)
+                    if m:
+                        if m[1] != ind: s.fail(b, 'effect at another nesting level inside try')
+                        callee = m[3].split()[0]
+                        if callee.startswith('Py.') or callee in MAY_UNSUPPORTED or callee not in SIG:
+                            s.fail(b, f'{callee} inside try may answer `unsupported`, which an except clause must not swallow')
+                        out += [f'{ind}let r_{m[2]} := {m[3]}', f'{ind}let .ok {m[2]} := r_{m[2]} | break']
+                    elif '←' in ln or 'throw ' in ln: s.fail(b, 'effect of an unexpected form inside try')
+                    else: out.append(ln)
             return out
         if isinstance(st, ast.If):
             c = s.cond(st.test); pre = s.flush(ind)
@@ -1732,6 +1774,12 @@ class Tr:
                                  and getattr(st.value.func.value, 'id', '') == 'Script'))):
                     out.append(f'  let mut {nm} := ([] : List Py.PyTok)')
                     s.declared.add(nm); s.toklists.add(nm)
+                    continue
+                if (nm not in top and nm not in s.declared and s.name == 'block_from_raw' and isinstance(st.value, ast.Call)
+                        and isinstance(st.value.func, ast.Attribute) and st.value.func.attr == 'from_raw'
+                        and getattr(st.value.func.value, 'id', '') in REC_CTOR):
+                    out.append(f'  let mut {nm} : {REC_CTOR[st.value.func.value.id][0]} := default')
+                    s.declared.add(nm)
                     continue
                 if nm not in top and nm not in s.declared:
                     k = s.kind(st.value)
@@ -1988,8 +2036,14 @@ def gen_codec():
             node = find(trees[file], qual)
             fps[name] = fingerprint(node)
             tr = Tr(name, file); tr.tree = trees[file]
-            L.append(tr.fn(node, params, ret))
+            txt = tr.fn(node, params, ret)
+            L.append(txt)
+            # may this function answer `unsupported`?  (it calls a stub, a function that may, or one of PyRT's partial string functions)
+            if _re.search(r'\bPy\.(strLower|strUpper|strStrip|intBase16|hexStrFmt64)\b', txt) or any(
+                    _re.search(r'(?<![\w.])' + _re.escape(t_) + r'(?![\w])', txt.split(':=', 1)[1] if ':=' in txt else txt) for t_ in MAY_UNSUPPORTED):
+                MAY_UNSUPPORTED.add(name)
         except Unsupported as ex:
+            MAY_UNSUPPORTED.add(name)
             # Outside the translated subset: a stub of the same type that raises `unsupported`.  Everything else still elaborates; the
             # theorems about this function (and about its callers) stop checking, and only the properties that rest on them are affected.
             unsup[name] = str(ex)
